@@ -232,6 +232,19 @@ def run(ctx):
     if len(impl) != len(cases):
         ctx.broken.append({"kind": "correspondence", "detail": "harness produced %d lines for %d cases (rc=%s): %s" % (len(impl), len(cases), rc, err[-500:])})
         return
+    if not ctx.replay:
+        # "Empty is the given element" where a copy would lose nil-ness or identity (direct oracle only)
+        prc, plines, perr = ctx.run_harness(binp, ["probe"], [])
+        for l in plines:
+            if not l.strip():
+                continue
+            ctx.count("probe " + l.rsplit(" ", 1)[0], True)
+            ctx.hist("op", "probe")
+            if not l.endswith(" ok"):
+                ctx.violations.append(vlib.Violation("impl", "monoid.From/FromOp: Empty() is not the given element (nil-ness or identity of a slice, map, pointer or interface "
+                                                     "value lost): " + l, case="probe " + l.rsplit(" ", 1)[0], expected="ok", got=l, key={"op": "probe"}))
+        if prc != 0 or len(plines) < 5:
+            ctx.broken.append({"kind": "correspondence", "detail": "probe run of the pure harness failed: rc=%s %s" % (prc, perr[-300:])})
     model = ctx.oracle("C17", cases)
     ctx.diff(cases, impl, model, "hand mirror (Model/GoOrd + Driver/C17) vs real pure/eq, ord, monoid, semigroup")
     for c, got in zip(cases, impl):
